@@ -295,6 +295,28 @@ func runGateChain(c *core.Ctx) {
 		}
 	})
 	if payload == "" {
+		// the frame read by a private helper of the relay's own (`typ, payload, err := relay.readMsg(ctx, conn)`:
+		// conn.Reader + io.ReadAll, with the size limit enforced by hand so that an oversized frame can be
+		// answered instead of closing the connection)
+		an.Instrs(fn, func(in ssa.Instruction) {
+			call, ok := in.(*ssa.Call)
+			if !ok || payload != "" {
+				return
+			}
+			h := an.StaticCallee(&call.Call)
+			if !an.PrivateHelper(h) || h.Signature.Results().Len() != 3 || !strings.HasSuffix(h.Signature.Results().At(0).Type().String(), "websocket.MessageType") {
+				return
+			}
+			okSrc, why := frameSourceOK(P, h)
+			c.CountSites(1)
+			c.Check(okSrc, []string{"C12"}, fname(c, h), "frame-source", P.Pos(h.Pos()),
+				"the helper hands out the frame's type and all of its bytes; a frame is refused as too long only when more than the limit was read (one byte beyond the limit is read to tell)",
+				"the frame reader does not hand out every frame within the size limit: "+why)
+			readPath = an.PathOf(call)
+			payload = readPath + "#1"
+		})
+	}
+	if payload == "" {
 		c.NoAnchor(nil, "conn.Read in the read function")
 		return
 	}
@@ -317,7 +339,10 @@ func runGateChain(c *core.Ctx) {
 				return false
 			}
 			k, isK := an.ConstInt(b.Y)
-			return gd.Path(b.X) == readPath+"#0" && isK && k == 1 && ((b.Op == token.EQL) == pol) && (b.Op == token.EQL || b.Op == token.NEQ)
+			tp := gd.Path(b.X)
+			// (read by a helper of the relay's own: the type is the message reader's)
+			isType := tp == readPath+"#0" || (strings.Contains(readPath, core.ModulePath) && strings.Contains(tp, "websocket.Conn).Reader(") && strings.HasSuffix(tp, "#0"))
+			return isType && isK && k == 1 && ((b.Op == token.EQL) == pol) && (b.Op == token.EQL || b.Op == token.NEQ)
 		}},
 		{"utf8.Valid", []string{"C12"}, func(gd an.Cond, v ssa.Value, pol bool) bool {
 			return pol && callIs(gd, v, "unicode/utf8.Valid", payload)
@@ -926,4 +951,110 @@ func rejectsOnce(P *core.Program, h *ssa.Function, idx int, isCtor func(string) 
 		}
 	}
 	return true
+}
+
+// frameSourceOK: h reads one websocket message by hand: (typ, r) from conn.Reader, the payload from
+// io.ReadAll of r — directly, or through a limit of L+1 bytes (io.LimitReader(r, L+1) or
+// &io.LimitedReader{R: r, N: L+1}) so that "longer than L" can be told from "exactly L". A successful
+// return hands out the reader's type and what ReadAll returned.
+func frameSourceOK(P *core.Program, h *ssa.Function) (bool, string) {
+	var reader *ssa.Call
+	var readAlls []*ssa.Call
+	an.Instrs(h, func(in ssa.Instruction) {
+		call, ok := in.(*ssa.Call)
+		if !ok {
+			return
+		}
+		switch an.CalleeName(&call.Call) {
+		case "(*github.com/coder/websocket.Conn).Reader":
+			reader = call
+		case "io.ReadAll":
+			readAlls = append(readAlls, call)
+		}
+	})
+	if reader == nil || len(readAlls) == 0 {
+		return false, "no conn.Reader / io.ReadAll pair"
+	}
+	isPlusOne := func(v ssa.Value) bool {
+		b, ok := v.(*ssa.BinOp)
+		if !ok || b.Op != token.ADD {
+			return false
+		}
+		k, isK := an.ConstInt(b.Y)
+		return isK && k == 1
+	}
+	for _, ra := range readAlls {
+		arg := ra.Call.Args[0]
+		if mi, ok := arg.(*ssa.MakeInterface); ok {
+			arg = mi.X
+		}
+		switch x := arg.(type) {
+		case *ssa.Extract:
+			if x.Tuple != ssa.Value(reader) {
+				return false, "io.ReadAll reads something else than the message reader"
+			}
+		case *ssa.Call:
+			if an.CalleeName(&x.Call) != "io.LimitReader" {
+				return false, "io.ReadAll reads through " + an.CalleeName(&x.Call)
+			}
+			if !isPlusOne(x.Call.Args[1]) {
+				return false, "the limit reader is armed with " + an.PathOf(x.Call.Args[1]) + ", not with limit+1: a frame of exactly the limit cannot be told from a longer one (" + P.Pos(x.Pos()) + ")"
+			}
+		case *ssa.Alloc:
+			// &io.LimitedReader{R: r, N: …}
+			fs := an.StructLitFields(x)
+			n, has := fs["N"]
+			if !has || !isPlusOne(n) {
+				got := "nothing"
+				if has {
+					got = an.PathOf(n)
+				}
+				return false, "the LimitedReader is armed with N = " + got + ", not with limit+1: a frame of exactly the limit cannot be told from a longer one (" + P.Pos(x.Pos()) + ")"
+			}
+		default:
+			return false, "io.ReadAll reads " + an.PathOf(arg)
+		}
+	}
+	// successful returns: the reader's type and ReadAll's bytes
+	for _, rb := range an.ReturnBlocks(h) {
+		rv := an.ReturnValues(an.LastInstr(rb).(*ssa.Return))
+		if !an.IsNilConst(rv[2]) {
+			if ex, ok := rv[2].(*ssa.Extract); ok {
+				_ = ex
+			}
+			continue
+		}
+		ok := false
+		if ex, isEx := rv[1].(*ssa.Extract); isEx && ex.Index == 0 {
+			for _, ra := range readAlls {
+				if ex.Tuple == ssa.Value(ra) {
+					ok = true
+				}
+			}
+		}
+		if ph, isPhi := rv[1].(*ssa.Phi); isPhi {
+			ok = true
+			for _, e := range ph.Edges {
+				ex, isEx := e.(*ssa.Extract)
+				if !isEx || ex.Index != 0 {
+					ok = false
+					continue
+				}
+				found := false
+				for _, ra := range readAlls {
+					if ex.Tuple == ssa.Value(ra) {
+						found = true
+					}
+				}
+				ok = ok && found
+			}
+		}
+		if !ok {
+			return false, "a successful return hands out " + an.PathOf(rv[1]) + ", not what io.ReadAll read"
+		}
+		if ex, isEx := rv[0].(*ssa.Extract); !isEx || ex.Tuple != ssa.Value(reader) || ex.Index != 0 {
+			return false, "a successful return hands out a frame type that is not the reader's"
+		}
+	}
+	return true, ""
 }
